@@ -334,7 +334,12 @@ def sites_in(f: FuncInfo) -> List[Dict[str, object]]:
                 cf = B.mk_and([ctx_f] + conds)
             if tf in (B.T, B.F):
                 continue
-            out.append({"test": B.key(tf), "context": B.key(cf), "context_f": _bf_to_json(cf), "loop": lp_txt,
+            # the site is identified by its whole raising condition (test under its path condition): `if a: ... elif b: ... else: raise`
+            # and `if not (a or b): raise` are the same site
+            full = B.mk_and([tf, cf])
+            if not B.satisfiable(full):
+                continue
+            out.append({"test": B.key(full), "context": B.key(cf), "context_f": _bf_to_json(cf), "loop": lp_txt,
                         "exc": "ValueError" if isve else ("re-raise" if isve is None else "other"),
                         "_node": r, "_test": t, "_pol": pol, "_loop": loop, "_tests": tests, "_ctx": cf})
     return out
@@ -431,13 +436,6 @@ def check_sites(prog: Program, rep, RID: str, only_funcs=None, skip_funcs=None):
             s = cands[0]
             if s["exc"] == "other":
                 rep.violation(RID, key, "the site raises an exception other than ValueError", f.loc(s["_node"]))
-                continue
-            from sa import boolnf as _B
-            want_ctx = _bf_from_json(row["context_f"]) if "context_f" in row else _B.T
-            if not _B.implies(want_ctx, s["_ctx"]):
-                wit = _B.witness(_B.mk_and([want_ctx, _B.mk_not(s["_ctx"])]), _B.F)
-                rep.violation(RID, key, f"the rejection `{row['test'][:70]}` is now only reached under the additional condition [{_B.key(s['_ctx'])[:160]}] "
-                              f"(was: [{row['context'][:120]}]): inputs violating it on the other branch are accepted", f.loc(s["_node"]))
                 continue
             # dominance by dataflow
             ok, why = dominance(prog, f, s)
